@@ -705,15 +705,25 @@ def symbols_tables(task, tier, seed):
                     fails.append(f"{modname} line {tgt.lineno}: `{ast.unparse(tgt)[:60]}` mutates symbol tables outside class Symbols")
     rs.append(Res("C30.lemma.symbols_private", "refuted" if fails else "discharged", "ast-scan", 0, "; ".join(fails[:3]), "table",
                   witness={"failures": fails[:5]} if fails else None))
-    # Symbols.copy: shallow copies of the three tables (branches start as copies, hence satisfy the invariant)
+    # Symbols.copy (semantic, on the real method): an equal symbol table whose three containers are new objects with equal
+    # content in the same order (branches start as copies, hence satisfy the invariant), everything else shared
     fails = []
-    node, _ = extract.function_ast(extract.resolve("jinja2.idtracking:Symbols.copy"))
-    body = [ast.unparse(s) for s in node.body if not (isinstance(s, ast.Expr) and isinstance(s.value, ast.Constant))]
-    want = ["rv = object.__new__(self.__class__)", "rv.__dict__.update(self.__dict__)", "rv.refs = self.refs.copy()", "rv.loads = self.loads.copy()",
-            "rv.stores = self.stores.copy()", "return rv"]
-    if body != want:
-        fails.append(f"Symbols.copy is {body}")
-    rs.append(Res("C30.lemma.symbols_inv.copy", "refuted" if fails else "discharged", "ast", 0, "; ".join(fails), "table", witness={"failures": fails} if fails else None))
+    par = IDT.Symbols()
+    s0 = IDT.Symbols(parent=par)
+    for nm in ("zeta", "alpha", "mid"):
+        s0.store(nm)
+        s0.load(nm + "_read")
+    s0.declare_parameter("p")
+    c0 = s0.copy()
+    if type(c0) is not type(s0) or c0.parent is not par or c0.level != s0.level:
+        fails.append("Symbols.copy does not keep class / parent / level")
+    for fld in ("refs", "loads", "stores"):
+        a, b = getattr(s0, fld), getattr(c0, fld)
+        if a is b:
+            fails.append(f"Symbols.copy shares .{fld} with the original")
+        elif a != b or (isinstance(a, dict) and list(a) != list(b)):
+            fails.append(f"Symbols.copy changes the content / order of .{fld}")
+    rs.append(Res("C30.lemma.symbols_inv.copy", "refuted" if fails else "discharged", "native", 0, "; ".join(fails), "table", witness={"failures": fails} if fails else None))
     # lookup-only: Parser.extensions is filled per extension tag (a set) and only ever looked up
     fails = []
     for modname in ("jinja2.parser", "jinja2.ext", "jinja2.environment", "jinja2.compiler", "jinja2.lexer"):
@@ -732,7 +742,8 @@ def symbols_tables(task, tier, seed):
                     fails.append(f"{modname} line {n.lineno}: parser.extensions used in `{ast.unparse(p)[:60]}` (not a lookup)")
     rs.append(Res("C30.lemma.lookup_only.Parser.extensions", "refuted" if fails else "discharged", "ast-scan", 0, "; ".join(fails[:3]), "table",
                   witness={"failures": fails[:5]} if fails else None))
-    return rs
+    from contracts.emit_template import soften
+    return soften(rs, replay_seeds, only=lambda r: "symbols_inv.copy" not in r.name)
 
 
 # ------------------------------------------------------------------------------------------ text of compile-time values
@@ -951,7 +962,8 @@ def consttext_tables(task, tier, seed):
     if n_opaque < 3:
         fails.append(f"only {n_opaque} opaque fold sites found in nodes.py (expected the filter/test call, getattr, getitem)")
     row("intermediate_folds_guarded", sorted(set(fails)))
-    return rs
+    from contracts.emit_template import soften
+    return soften(rs, consttext_replay)
 
 
 _CONSTTEXT_SCRIPT = r"""
